@@ -309,7 +309,7 @@ func genC19(c *ctx) {
 			coqToks = append(coqToks, coqw.Pair(coqw.N(uint64(j)), dec))
 			desc = append(desc, fmt.Sprintf("%d:%s", j, dec))
 		}
-		_, pt, _, dt, _ := macaroon.FindPermissionAndDischargeTokens(toks, permLoc)
+		pm, pt, dm, dt, _ := macaroon.FindPermissionAndDischargeTokens(toks, permLoc)
 		idx := func(l [][]byte) []uint64 {
 			var o []uint64
 			for _, x := range l {
@@ -322,8 +322,17 @@ func genC19(c *ctx) {
 			}
 			return o
 		}
+		findFail := ""
+		if len(pm) != len(pt) || len(dm) != len(dt) {
+			findFail = fmt.Sprintf("FindPermissionAndDischargeTokens returns %d/%d parsed tokens for %d/%d raw ones", len(pm), len(dm), len(pt), len(dt))
+		}
+		for q := range pm {
+			if findFail == "" && (pm[q] == nil || pm[q].Location != permLoc) {
+				findFail = "a parsed permission token returned by FindPermissionAndDischargeTokens is not at the issuer's location"
+			}
+		}
 		st.Add(&cs.Case{Coq: coqw.App("KFind", coqw.List(coqToks), coqw.ListOf(idx(pt), coqw.N), coqw.ListOf(idx(dt), coqw.N)),
-			Desc: map[string]any{"op": "FindPermissionAndDischargeTokens", "tokens": desc, "impl_perm": idx(pt), "impl_dis": idx(dt)}, Class: "find", Nontrivial: true})
+			Desc: map[string]any{"op": "FindPermissionAndDischargeTokens", "tokens": desc, "impl_perm": idx(pt), "impl_dis": idx(dt)}, Class: "find", Nontrivial: true, OracleFail: findFail})
 		// the same tokens as a header through ParsePermissionAndDischargeTokens: exactly one permission token, for any number of tokens
 		hdr := macaroon.ToAuthorizationHeader(toks...)
 		one, ds, err := macaroon.ParsePermissionAndDischargeTokens(hdr, permLoc)
